@@ -455,7 +455,7 @@ def source_fingerprint(repo):
 class Prop:
     pid = 'C09'
     props_file = 'Props/C09.v'
-    required_theorems = ['no_echo', 'no_ibgp_nonclient_to_nonclient', 'no_rs_boundary_crossing', 'loops_never_installed', 'ebgp_rewrite', 'ebgp_any_policy', 'ibgp_rewrite', 'ibgp_local_pref_any_policy', 'reflection_adds_originator_and_cluster', 'confed_rewrite', 'llgr_stale_marked', 'llgr_stale_readvertised', 'llgr_stale_readvertised_refuted', 'unknown_attr_rule', 'unknown_attr_rule_any_policy', 'as_path_prepend_spec', 'as_path_full_segment_rule', 'as_path_strip_confed_spec', 'as_path_count_spec', 'ebgp_policy_med', 'policy_actions_keep_decodable', 'no_panic_on_decodable', 'as_path_view_unambiguous', 'llgr_view_refreshed', 'llgr_refresh_addpath', 'llgr_refresh_best_only', 'propagation_exactly_where_allowed', 'kernel_routes_withheld_from_nonclient_ibgp', 'best_only_complete', 'history_view_allowed', 'process_change_r_lower', 'process_change_r_lift', 'policy_prepend_then_export', 'loop_free_installed', 'rtc_filter_is_a_policy_wrapper']
+    required_theorems = ['no_echo', 'no_ibgp_nonclient_to_nonclient', 'no_rs_boundary_crossing', 'loops_never_installed', 'ebgp_rewrite', 'ebgp_any_policy', 'ibgp_rewrite', 'ibgp_local_pref_any_policy', 'reflection_adds_originator_and_cluster', 'confed_rewrite', 'llgr_stale_marked', 'llgr_stale_readvertised', 'llgr_stale_readvertised_refuted', 'unknown_attr_rule', 'unknown_attr_rule_any_policy', 'as_path_prepend_spec', 'as_path_full_segment_rule', 'as_path_strip_confed_spec', 'as_path_count_spec', 'ebgp_policy_med', 'policy_actions_keep_decodable', 'no_panic_on_decodable', 'as_path_view_unambiguous', 'llgr_view_refreshed', 'llgr_refresh_addpath', 'llgr_refresh_best_only', 'propagation_exactly_where_allowed', 'kernel_routes_withheld_from_nonclient_ibgp', 'best_only_complete', 'history_view_allowed', 'process_change_r_lower', 'process_change_r_lift', 'policy_prepend_then_export', 'loop_free_installed', 'rtc_filter_is_a_policy_wrapper', 'export_map_tracks_view', 'export_map_tracks_view_history']
     correspondence_name = ('Model/Export.v run_case vs daemon/src/event/export.rs + packet/src/bgp.rs AS_PATH edits '
                            '(harness/daemon/export_hx.rs)')
     rule = ('cases = one call of a real function each (AS_PATH edit, is_as_loop, export_attrs, pre_policy_defaults, '
